@@ -92,6 +92,23 @@ Theorem C15_auto_exact : forall t arg older now infos cl tl ll,
   count_sel_good infos (scrub_selected SCRUB_AUTO tl ll infos) = N.to_nat cl.
 Proof. exact auto_exact. Qed.
 
+(* bad stripes are selected in every plan (C15_bad_always) ON TOP of the share: the walk does not let them consume the
+   tie count although their times are in the sorted vector, so the share bounds the stripes chosen by age
+   (C15_auto_quota) and the total is bounded by the share plus the number of bad stripes.  The bound is reached:
+   10 stripes of one time, stripes 0 and 1 bad, -p 30: count_limit 3, last_limit 3, 5 stripes scrubbed. *)
+Theorem C15_auto_total_bound : forall t arg older now infos cl tl ll,
+  scrub_limits t arg older now infos = Lim SCRUB_AUTO cl tl ll ->
+  (count_sel_all infos (scrub_selected SCRUB_AUTO tl ll infos) <= N.to_nat cl + count_bad infos)%nat.
+Proof. exact auto_total_bound. Qed.
+
+Example C15_nonvacuous_bad_at_tie_time :
+  let infos := [161; 161; 160; 160; 160; 160; 160; 160; 160; 160]%N in
+  scrub_limits no_test_opts (ArgPct 30) (Some 0%N) 2000 infos = Lim SCRUB_AUTO 3 160 3 /\
+  scrub_selected SCRUB_AUTO 160 3 infos = [true; true; true; true; true; false; false; false; false; false] /\
+  count_sel_good infos (scrub_selected SCRUB_AUTO 160 3 infos) = 3%nat /\
+  count_sel_all infos (scrub_selected SCRUB_AUTO 160 3 infos) = 5%nat /\ count_bad infos = 2%nat.
+Proof. cbv zeta. repeat split; vm_compute; reflexivity. Qed.
+
 (* --- the books ------------------------------------------------------------------------------------------------ *)
 (* verified ds ps : every block of a file was read and its hash (when recorded) matches, every parity was read and
                     equals the recomputed one;
@@ -231,6 +248,7 @@ Proof. cbv zeta. split; vm_compute; reflexivity. Qed.
 Print Assumptions C15_bad_always.
 Print Assumptions C15_default_scrub_covers.
 Print Assumptions C15_auto_exact.
+Print Assumptions C15_auto_total_bound.
 Print Assumptions C15_unreadable_never_refreshed.
 Print Assumptions C15_plan_number_range_refuted.
 Print Assumptions C15_plan_number_range_partial.
